@@ -340,13 +340,15 @@ def check(ctx):
         a = m_call(x, name='has_some_signature_from_key_returning_metadata') or m_call(x, name='has_signature_from_returning_metadata')
         return a is not None and a[0] == P1 and a[1] == P2
     def meta_guard(x):
+        if x[0] == 'discr':
+            return meta_val(x[1])       # `match matcher(..)? { Some(m) => Ok(m), None => bail }`
         a = m_call(x, name='is_none') or m_call(x, name='is_some')
         return a is not None and meta_val(a[0])
     b = F.method1('Envelope', 'verify_signature_from_returning_metadata')
     if b is not None:
         tb = TermBuilder(F, b)
         gs = find_terms(b, tb, lambda x: meta_guard(strip_sites(detry(x))))
-        passing = (call_name(gs[0]) == 'is_some') if gs else True
+        passing = (1 if gs[0][0] == 'discr' else call_name(gs[0]) == 'is_some') if gs else True
         wrapper('verify_signature_from_returning_metadata', meta_guard, passing, meta_val, 'the matcher returned Some(metadata)')
     hs = F.method1('Envelope', 'has_some_signature_from_key')
     if hs is not None:
